@@ -191,6 +191,25 @@ func (e *Exec) callFn(fr *frame, st *State, c *ssa.CallCommon, fn *ssa.Function,
 		return &Tuple{}, true
 	case "vcSameSlice":
 		return tEq(e.asTerm(st, args[0], sig.Params().At(0).Type()), e.asTerm(st, args[1], sig.Params().At(1).Type())), true
+	case "vcElemsOf":
+		sl := sig.Params().At(0).Type().Underlying().(*types.Slice)
+		sv := e.asTerm(st, args[0], sig.Params().At(0).Type())
+		name, srt := e.ti.elemComp(sl.Elem(), nil)
+		if _, isStruct := sl.Elem().Underlying().(*types.Struct); isStruct {
+			e.unsupported("vcElemsOf on a slice of structs")
+		}
+		as := arraySort(SInt, srt)
+		H := e.heapComp(st, name, SInt, arraySort(SInt, as))
+		return tSelect(H, slArr(sv), as), true
+	case "vcOff":
+		return slOff(e.asTerm(st, args[0], sig.Params().At(0).Type())), true
+	case "vcSeqAt":
+		q := e.asTerm(st, args[0], sig.Params().At(0).Type())
+		i := e.asTerm(st, args[1], types.Typ[types.Int])
+		return tSelect(q, i, e.ti.sortOf(sig.Results().At(0).Type())), true
+	case "vcIte":
+		c0 := e.asTerm(st, args[0], types.Typ[types.Bool])
+		return tIte(c0, e.asTerm(st, args[1], sig.Params().At(1).Type()), e.asTerm(st, args[2], sig.Params().At(2).Type())), true
 	case "vcByteStr":
 		return app(SStr, "sbyte", e.asTerm(st, args[0], types.Typ[types.Uint8])), true
 	case "vcFresh":
@@ -499,6 +518,18 @@ func (e *Exec) modularCall(st *State, ct *Contract, sig *types.Signature, args [
 			}
 		}
 	}
+	if ct.Key == e.fnKey && e.spec == 0 {
+		// recursive call of the function under verification: well-founded only with a decreasing measure
+		if ct.Decreases == nil || ct.Decreases.GenFn == "" {
+			e.unsupported("recursive call of %s without a decreases clause", calleeName)
+		} else if e.entry != nil && e.topArgs != nil {
+			m0, ok0 := e.evalSpec(e.entry, ct.PkgPath, ct.Decreases.GenFn, e.topArgs, e.entry)
+			m1, ok1 := e.evalSpec(st, ct.PkgPath, ct.Decreases.GenFn, targs, st)
+			if ok0 && ok1 {
+				e.oblige(st, "decreases", "wf.decreases@"+calleeName, tAnd(tLe(tInt(0), m0), tLt(m1, m0)), where)
+			}
+		}
+	}
 	for i, cl := range ct.Requires {
 		if cl.GenFn == "" {
 			continue
@@ -513,20 +544,20 @@ func (e *Exec) modularCall(st *State, ct *Contract, sig *types.Signature, args [
 	}
 	old := st.clone()
 	mods, star := e.collectMods(st, ct, targs)
+	if !ct.Pure {
+		// the callee may allocate (before the havoc: havocked locations may hold the new references)
+		na := e.smt.fresh("alloc", SInt)
+		e.assume(st, tLe(st.alloc, na))
+		st.alloc = na
+	}
 	if star {
 		e.havocAllHeap(st)
 	}
 	for _, p := range mods {
 		e.havocLoc(st, p)
 	}
-	if !ct.Pure {
-		// the callee may allocate
-		na := e.smt.fresh("alloc", SInt)
-		e.assume(st, tLe(st.alloc, na))
-		st.alloc = na
-	}
 	var res Value
-	if ct.Pure && pureScalar(sig) {
+	if ct.Pure && pureScalarK(sig, ct.Kind == "iface" || ct.Kind == "ext") {
 		e.pureAxioms(ct, sig)
 		return e.pureResult(st, ct, sig, targs), true
 	}
@@ -603,11 +634,17 @@ func (e *Exec) pureResult(st *State, ct *Contract, sig *types.Signature, args []
 }
 
 // pureAxiomatizable: all parameters and the result are heap-independent scalars.
-func pureScalar(sig *types.Signature) bool {
+func pureScalar(sig *types.Signature) bool { return pureScalarK(sig, false) }
+
+// pureScalarK: with refs allowed, pointer / interface arguments are treated as opaque identities
+// (only for assumed iface/ext contracts whose author declares the result independent of mutable state).
+func pureScalarK(sig *types.Signature, refs bool) bool {
 	ok := func(t types.Type) bool {
 		switch u := t.Underlying().(type) {
 		case *types.Basic:
 			return u.Info()&(types.IsInteger|types.IsBoolean|types.IsString) != 0
+		case *types.Pointer, *types.Interface:
+			return refs
 		}
 		return false
 	}
